@@ -66,7 +66,7 @@ def run_harness(dst, h, timeout):
     checks = int(m.group(2)) if m else 0
     nfail = int(m.group(1)) if m else 0
     fails = re.findall(r'Failed Checks: ([^\n]*)', out)
-    unsupported = bool(re.search(r'not currently supported by Kani|unsupported_construct|is not supported', out))
+    unsupported = bool(re.search(r'not currently supported by Kani|unsupported_construct', out))
     if unsupported:
         failed = False
     return dict(harness=name, bounded=h.get('bounded', False), bound=h.get('bound', ''), ok=ok, failed=failed, timeout=to,
